@@ -415,6 +415,19 @@ PrintIntr == {[at |-> "print", n |-> n] : n \in 1..3}
 JoinIntr == {[at |-> "join", n |-> n] : n \in {0, 1, 9, 10, 11, 15, 20, 30, 33}} \cup NoIntr
 AllIntr == NoIntr \cup LineIntr \cup PrintIntr
 
+\* table variant "vreal" (v REAL): aggregates and comparisons over REAL inputs whose sums are exactly representable (quarters), -0.0 among them
+LinesReal == {KV(A, RealV(3, 2)), KV(A, RealV(1, 4)), KV(B, RealV(-1, 2)), KV(A, RealV(0, 1)), KV(B, RealV(5, 1)), KV(Null, RealV(1, 1)), KV(A, Null), KV(B, RealV(10, 1)), KV(A, RealV(9, 4))}
+RealMenu ==
+  {Agg(<<KeyK, x>>, <<K>>, NoE, NoH, FALSE, NoLimit, "none") : x \in {CountV, SumV, MinOfV, MaxOfV, ItE("avg", V, "a"), ItC("count_distinct", "v", "d"),
+                                                                     [a |-> "percentile", e |-> V, pn |-> 1, pd |-> 2, as |-> "p50", wrap |-> NoE], ItE("array_agg", V, "aa"),
+                                                                     [SumV EXCEPT !.wrap = Arith("*", Col("$value"), Lit(RealV(2, 1)))]}}
+  \cup {Agg(<<SumV, CountStar, MaxOfV>>, <<>>, CmpE(">", V, Lit(RealV(0, 1))), NoH, FALSE, NoLimit, "none"),
+        Agg(<<KeyK, SumV>>, <<K>>, NoE, HAgg(SumV, ">=", RealV(3, 2)), FALSE, NoLimit, "none"),
+        Agg(<<ItE("key", V, "v"), CountStar>>, <<V>>, NoE, NoH, FALSE, NoLimit, "none"),
+        Sel(<<P(V, ""), P(Arith("+", V, Lit(RealV(1, 2))), "h"), P(CmpE("<", V, Lit(IntV(1))), "lt1"), P(Cast(V, "text"), "t"), P(NegE(V), "n"), P(Call("abs", <<V>>), "a")>>, NoE, FALSE, NoLimit, "none"),
+        Sel(<<P(V, "")>>, CmpE(">=", V, Lit(RealV(3, 2))), TRUE, NoLimit, "none"),
+        Star(InE(FALSE, V, <<Lit(RealV(3, 2)), Lit(IntV(5))>>), FALSE, NoLimit, "none")}
+
 \* ---- every statement of every menu (without joins / with joins): random long inputs over them run under each engine-based property, so that a
 \* statement shape kept for one property is also exercised under the checks of the others
 UnionMenu == SelectMenu \cup FunctionMenu \cup DistinctMenu \cup LimitMenu \cup AggMenu \cup OrderMenu \cup CalMenu \cup CalAggMenu \cup PrecMenu \cup NoiseMenu
